@@ -34,7 +34,7 @@ from mc.clients import OP_TEXT, h1_request, h2_request_headers, ws_frame, ws_h1_
 from mc.explore import V
 from mc.harness import client_view, norm_msg
 from mc.x_c01c02c13_lib import (choose_cuts, h2_script_bytes, h2c_settings_header, lattice, make_execute,
-                                make_xclient, paced_app_factory, segments)
+                                make_xclient, paced_app_factory, segments, three_way_modes)
 
 ID = "C13"
 LEVEL = "model_checking"
@@ -163,7 +163,8 @@ def scenarios(tier: str) -> List[Any]:
             out.append((engine, name, "2way", "eager"))
             out.append((engine, name, "bytes", "eager"))
             if name in three:
-                out.append((engine, name, "3way", "eager"))
+                for mode in three_way_modes(LENGTHS[name]):
+                    out.append((engine, name, mode, "eager"))
             out.append((engine, name, "switch", "gated"))
     return out
 
